@@ -841,3 +841,49 @@ def gen_isophote_table():
            f'def growthFormulas : Bool := {b(upd_ok and rst_ok)}\n\n'
            'end PhotVerif.Gen.IsophoteTable\n')
     return 'IsophoteTable.lean', src, out
+
+# ------------------------------------------------------------------ PSFPhotometry: per-source results leave the group order
+def gen_psf_table():
+    """which reads of `self._group_results[...]` (lists in group-fitting order) are passed through `self._ungroup`, and the
+    shape of `_ungroup` / `_order_by_id` themselves (C12: output rows are in input order)"""
+    path = os.path.join(REPO, 'photutils/psf/photometry.py')
+    src = open(path).read()
+    tree = ast.parse(src)
+    cls = next((n for n in tree.body if isinstance(n, ast.ClassDef) and n.name == 'PSFPhotometry'), None)
+    if cls is None:
+        raise Unsupported('class PSFPhotometry not found')
+    rows = []
+    for fn in cls.body:
+        if not isinstance(fn, ast.FunctionDef):
+            continue
+        parents = {}
+        for node in ast.walk(fn):
+            for ch in ast.iter_child_nodes(node):
+                parents[ch] = node
+        for node in ast.walk(fn):
+            if isinstance(node, ast.Subscript) and isinstance(node.value, ast.Attribute) and node.value.attr == '_group_results' \
+                    and isinstance(node.slice, ast.Constant) and isinstance(node.ctx, ast.Load):
+                par = parents.get(node)
+                if isinstance(par, ast.Attribute) and par.attr == 'append':
+                    continue                                    # a write
+                wrapped = isinstance(par, ast.Call) and isinstance(par.func, ast.Attribute) and par.func.attr == '_ungroup' and node in par.args
+                rows.append((fn.name, node.slice.value, wrapped))
+    norm = lambda n: ast.unparse(n).replace(' ', '').replace('\n', ';') if n is not None else ''
+    ung = _cls_method(tree, 'PSFPhotometry', '_ungroup')
+    obi = _cls_method(tree, 'PSFPhotometry', '_order_by_id')
+    body = lambda f: ';'.join(ast.unparse(st).replace(' ', '') for st in f.body if not (isinstance(st, ast.Expr) and isinstance(st.value, ast.Constant))) if f is not None else ''
+    ung_ok = body(ung) == 'iterable=_flatten(iterable);returnself._order_by_id(iterable)'
+    obi_ok = body(obi) == "return[iterable[i]foriinself._group_results['ungroup_indices']]"
+    b = lambda v: 'true' if v else 'false'
+    out = ('/- GENERATED by tools/extract_tables.py from photutils/psf/photometry.py (reads of _group_results in PSFPhotometry) '
+           f'(sha256/16 {sha(src)}). DO NOT EDIT. -/\n'
+           'import PhotVerif.Model.Prelude\nnamespace PhotVerif.Gen.PsfTable\n\n'
+           '/-- (method, key, passed through `self._ungroup`) for every read of `self._group_results[key]` -/\n'
+           'def groupResultReads : List (String × String × Bool) :=\n  ['
+           + ',\n   '.join(f'("{m}", "{k}", {b(w)})' for m, k, w in rows) + ']\n\n'
+           '/-- `_ungroup(x) = _order_by_id(_flatten(x))` -/\n'
+           f'def ungroupFlattensThenOrders : Bool := {b(ung_ok)}\n'
+           "/-- `_order_by_id(x) = [x[i] for i in ungroup_indices]` -/\n"
+           f'def orderByIdIndexesWithUngroupIndices : Bool := {b(obi_ok)}\n\n'
+           'end PhotVerif.Gen.PsfTable\n')
+    return 'PsfTable.lean', src, out
